@@ -19,7 +19,7 @@ func init() {
 
 // ---------------------------------------------------------------- C16 stores
 
-var c16StoreKinds = []string{"simple", "simple", "simple", "simple", "merge", "copy", "encdec", "proto", "clear"}
+var c16StoreKinds = []string{"simple", "simple", "simple", "simple", "merge", "decmerge", "protomerge", "copy", "encdec", "proto", "clear"}
 
 func TestC16_Stores(t *testing.T) {
 	rapid.Check(t, func(t *rapid.T) {
@@ -220,7 +220,7 @@ func TestC16_Sketch(t *testing.T) {
 
 // ---------------------------------------------------------------- C15 stores
 
-var c15StoreKinds = []string{"simple", "simple", "simple", "simple", "merge", "copy", "encdec", "encdouble", "proto", "reweight", "clear"}
+var c15StoreKinds = []string{"simple", "simple", "simple", "simple", "merge", "decmerge", "protomerge", "copy", "encdec", "encdouble", "proto", "reweight", "clear"}
 
 func shiftedBase(t *rapid.T, base, span int, n int) int {
 	sh := rapid.SampledFrom([]int{0, 0, 1, -1, 32, -32, 64, -64, n, -n, span, -span, 2 * span, 100000, -100000}).Draw(t, "h2shift")
